@@ -439,9 +439,34 @@ def case_tcell(ctx, rng):
 LEVELS = ["none", "suspicious", "confirmed", "critical"]
 
 
-def gen_rules(ctx, rng, hits, nmax=4):
+def make_rule(ctx, hits, kind, arg, sev, name):
     from operon_ai.surveillance.treg import SuppressionRule
     from operon_ai.surveillance.types import ThreatLevel
+
+    def cond(resp, rec):
+        ctx.count("rule_conditions_evaluated")
+        if kind == "always":
+            v = True
+        elif kind == "never":
+            v = False
+        elif kind == "recent_update":
+            v = rec.recent_update
+        elif kind == "tolerated":
+            v = any(x.startswith(p) for x in resp.violations for p in rec.tolerated_violations)
+        elif kind == "signal2":
+            v = resp.signal2.value == arg
+        elif kind == "clean_streak":
+            v = rec.clean_inspections >= arg
+        else:
+            v = len(resp.violations) <= arg
+        if v:
+            hits.append(name)
+        return v
+
+    return SuppressionRule(name=name, condition=cond, max_severity=ThreatLevel(sev)), {"name": name, "max_severity": sev, "arg": arg}
+
+
+def gen_rules(ctx, rng, hits, nmax=4):
     rules = []
     descs = []
     for i in range(rng.choice([0, 1, 1, 2, 3, nmax])):
@@ -454,30 +479,9 @@ def gen_rules(ctx, rng, hits, nmax=4):
         elif kind == "few_violations":
             arg = rng.choice([1, 2, 5])
         sev = rng.choice(LEVELS)
-        name = "%s-%d" % (kind, i)
-
-        def cond(resp, rec, kind=kind, arg=arg, name=name):
-            ctx.count("rule_conditions_evaluated")
-            if kind == "always":
-                v = True
-            elif kind == "never":
-                v = False
-            elif kind == "recent_update":
-                v = rec.recent_update
-            elif kind == "tolerated":
-                v = any(x.startswith(p) for x in resp.violations for p in rec.tolerated_violations)
-            elif kind == "signal2":
-                v = resp.signal2.value == arg
-            elif kind == "clean_streak":
-                v = rec.clean_inspections >= arg
-            else:
-                v = len(resp.violations) <= arg
-            if v:
-                hits.append(name)
-            return v
-
-        rules.append(SuppressionRule(name=name, condition=cond, max_severity=ThreatLevel(sev)))
-        descs.append({"name": name, "max_severity": sev, "arg": arg})
+        rule, d = make_rule(ctx, hits, kind, arg, sev, "%s-%d" % (kind, i))
+        rules.append(rule)
+        descs.append(d)
     return rules, descs
 
 
@@ -505,6 +509,42 @@ def check_tolerance(ctx, scope, before, after_action, suppressed, desc):
         return True
     if d == 1:
         ctx.count("tolerance_one_step_lowerings")
+    return False
+
+
+TABLE_ACTION = {"none": "ignore", "suspicious": "monitor", "confirmed": "isolate", "critical": "shutdown"}
+
+
+def check_reported_action(ctx, r, tcell_consulted, desc):
+    """Every response the system reports, whichever path produced it (watcher, remembered threat, no fingerprint): the action
+    is at most one step below the action the response table recommends for the reported level, and CRITICAL keeps SHUTDOWN.
+    Responses answered from memory carry an action that tolerance may already have lowered when the threat was stored; lowering it
+    again on recall is what this sees."""
+    lvl, act = r.threat_level.value, r.action.value
+    recalled = not tcell_consulted and r.signal2.value == "cross"
+    scope = "e2e-recalled" if recalled else "e2e-reported"
+    if recalled:
+        ctx.count("e2e_recalled_responses")
+    rep = dict(desc, reported={"level": lvl, "action": act, "signal2": r.signal2.value, "violations": list(r.violations)},
+               recommended=TABLE_ACTION[lvl], watcher_consulted=tcell_consulted)
+    if act not in RANK:
+        ctx.count("e2e_unranked_actions")
+        return False
+    d = RANK[TABLE_ACTION[lvl]] - RANK[act]
+    if lvl == "critical":
+        if d:
+            ctx.violation(scope + "-critical-softened", "CRITICAL reported with action %s" % act, rep)
+            return True
+        return False
+    if d > 1:
+        ctx.violation(scope + "-lowered-more-than-one-step", "%s reported with action %s, %d steps below the recommended %s" % (
+            lvl, act, d, TABLE_ACTION[lvl]), rep)
+        return True
+    if d < 0:
+        ctx.violation(scope + "-raised-action", "%s reported with action %s, above the recommended %s" % (lvl, act, TABLE_ACTION[lvl]), rep)
+        return True
+    if d == 1 and recalled:
+        ctx.count("e2e_recalled_tolerated_responses")
     return False
 
 
@@ -657,7 +697,7 @@ def emit(rng, style, i):
 
 
 class E2E:
-    def __init__(self, ctx, rng, desc, sizes=None):
+    def __init__(self, ctx, rng, desc, sizes=None, lenient=False):
         from operon_ai.surveillance.immune_system import ImmuneSystem
         self.ctx = ctx
         self.rng = rng
@@ -676,6 +716,14 @@ class E2E:
         self.hits = []
         self.sys = ImmuneSystem(min_training_samples=mts, min_observations=mo, window_size=ws)
         rules, rdesc = gen_rules(ctx, rng, self.hits, nmax=3)
+        if lenient:
+            # a rule that is allowed to touch CONFIRMED responses and tends to match them on every sighting
+            kind = rng.choice(["always", "recent_update", "signal2", "signal2", "few_violations", "clean_streak"])
+            arg = {"signal2": rng.choice(["manual", "repeat", "cross", "canary"]), "few_violations": 5, "clean_streak": 0}.get(kind)
+            rule, d = make_rule(ctx, self.hits, kind, arg, rng.choice(["confirmed", "confirmed", "critical"]), kind + "-lenient")
+            at = rng.randint(0, len(rules))
+            rules.insert(at, rule)
+            rdesc.insert(at, d)
         self.sys.treg.rules = rules
         self.sys.treg.stability_threshold = rng.choice([1, 2, 3, 100])
         self.sys.register_agent("agent")
@@ -685,6 +733,10 @@ class E2E:
         self.model = None
         self.remembered = set()
         self.raw = []
+        self.win = []   # harness-side copy of the sliding window (own Observation objects, last window_size records)
+        self.can = []   # canary results since the last clear
+        self.full_violating = False  # a violating inspection on a full window happened since the last (re)training
+        self.since_full_violating = 0  # observations recorded since then
         self.i = 0
         self.trained = False
         self.reached = set()
@@ -697,18 +749,43 @@ class E2E:
         self.desc["ops"].append(list(op))
 
     # -- workload steps ------------------------------------------------
+    def record(self, out, rt, conf, err=None):
+        """one observation into the system under test and into the harness' own copy of the window"""
+        from operon_ai.surveillance.display import Observation
+        self.sys.record_observation("agent", out, rt, conf, err)
+        self.win.append(Observation(output=out, response_time=rt, confidence=conf, error=err))
+        if len(self.win) > self.ws:
+            del self.win[0]
+        self.since_full_violating += 1
+
     def observe(self, style, n, label):
         for _ in range(n):
             out, rt, conf, err = emit(self.rng, style, self.i)
             self.i += 1
-            self.sys.record_observation("agent", out, rt, conf, err)
+            self.record(out, rt, conf, err)
         self.ctx.count("observations_recorded", n)
         self.log("observe", label, n)
 
     def canaries(self, n, p):
         for _ in range(n):
-            self.sys.record_canary_result("agent", self.rng.random() < p)
+            ok = self.rng.random() < p
+            self.sys.record_canary_result("agent", ok)
+            self.can.append(ok)
         self.log("canary", n, p)
+
+    def clear(self):
+        self.sys.displays["agent"].clear()
+        del self.win[:]
+        del self.can[:]
+        self.log("display.clear")
+
+    def fresh_fingerprint(self):
+        """the current fingerprint, recomputed by a display built for this one call from the harness' own copy of the
+        window -- never read from the display under test (which may hold state between calls)"""
+        from operon_ai.surveillance.display import MHCDisplay
+        d = MHCDisplay(agent_id="agent", window_size=self.ws, min_observations=self.mo,
+                       observations=list(self.win), canary_results=list(self.can))
+        return d.generate_peptide()
 
     def train(self):
         """-> True when the window was accepted"""
@@ -739,12 +816,13 @@ class E2E:
         tc.inspect = spy
         self.model = WatcherModel(self.thr_repeat, self.thr_anergy)
         self.hidden_clean = self.last_hidden = self.anergy_affected = False
+        self.full_violating = False
         self.trained = True
         return True
 
     def current(self):
         """harness-side reading of the current behaviour against the trained profile (own comparisons)"""
-        pep = self.sys.displays["agent"].generate_peptide()
+        pep = self.fresh_fingerprint()
         if pep is None:
             return None, None, None
         prof = self.sys.profiles["agent"]
@@ -763,7 +841,8 @@ class E2E:
         if pep is None:
             st = {"no_fingerprint": True}
             self.log("inspect", "no fingerprint", r.threat_level.value)
-            judge(self.ctx, "e2e", r, st, self.desc)
+            if not judge(self.ctx, "e2e", r, st, self.desc):
+                check_reported_action(self.ctx, r, bool(self.raw), self.desc)
             return r
         key = (pep.vocabulary_hash, pep.structure_hash)
         mem = key in self.remembered
@@ -779,8 +858,7 @@ class E2E:
         st["fingerprint"] = vals
         if after_training:
             st["after_training"] = True
-            st["window_has_nan"] = any(o.response_time != o.response_time or o.confidence != o.confidence
-                                       for o in self.sys.displays["agent"].observations)
+            st["window_has_nan"] = any(o.response_time != o.response_time or o.confidence != o.confidence for o in self.win)
             if st["window_has_nan"]:
                 self.ctx.count("accepted_windows_with_nan")
         if mem:
@@ -789,18 +867,30 @@ class E2E:
                 self.ctx.count("e2e_memory_as_second_signal")
         self.log("inspect", {"violated": truth["violated"], "remembered": mem, "anergic": st["anergic"]},
                  "%s/%s" % (r.threat_level.value, r.action.value))
-        judge(self.ctx, "e2e", r, st, self.desc)
+        judged = judge(self.ctx, "e2e", r, st, self.desc)
+        # window rollover: the behaviour violated the baseline on a full window, then a whole window of later observations
+        # replaced it and the behaviour is back inside the baseline
+        full = len(self.win) >= self.ws
+        if full and not viol and self.full_violating and self.since_full_violating >= self.ws and not after_training:
+            self.ctx.count("e2e_recovered_after_window_rollover")
+        if full and viol:
+            self.full_violating = True
+            self.since_full_violating = 0
         # tolerance, end to end: what the watcher said vs. what the system reported
+        fired = judged
         if self.raw:
             self.ctx.count("e2e_tcell_consulted")
             before = self.raw[-1]
             if before[0] == "critical" and r.threat_level.value != "critical":
                 self.ctx.violation("e2e-critical-changed", "watcher said CRITICAL, system reported %s" % r.threat_level.value,
                                    dict(self.desc, watcher=before))
+                fired = True
             elif check_tolerance(self.ctx, "e2e", before, r.action.value, False, dict(self.desc, watcher=before)):
-                pass
+                fired = True
             elif before[1] != r.action.value:
                 self.ctx.count("e2e_tolerance_applied")
+        if not fired:
+            check_reported_action(self.ctx, r, bool(self.raw), self.desc)
         if r.threat_level.value in ("confirmed", "critical"):
             self.remembered.add(key)
         self.last_level = r.threat_level.value
@@ -832,7 +922,7 @@ class E2E:
     def preload(self, current=True):
         from operon_ai.surveillance.memory import ThreatSignature
         from operon_ai.surveillance.types import ThreatLevel, ResponseAction
-        pep = self.sys.displays["agent"].generate_peptide()
+        pep = self.fresh_fingerprint()
         if pep is None:
             return
         key = (pep.vocabulary_hash, pep.structure_hash) if current else ("feedfacecafe", pep.structure_hash)
@@ -861,9 +951,9 @@ def _case_e2e(ctx, rng, clock):
     if nonfinite:
         bad = rng.choice([float("nan"), float("inf"), -float("inf")])
         if rng.random() < 0.5:
-            h.sys.record_observation("agent", "alpha", bad, 0.9)
+            h.record("alpha", bad, 0.9)
         else:
-            h.sys.record_observation("agent", "alpha", 0.5, bad)
+            h.record("alpha", 0.5, bad)
         h.log("observe-nonfinite", repr(bad))
     if rng.random() < 0.5:
         h.canaries(rng.randint(1, 12), rng.choice([1.0, 1.0, 0.9, 0.6, 0.3, 0.0]))
@@ -916,8 +1006,7 @@ def _case_e2e(ctx, rng, clock):
             elif r < 0.30:
                 h.preload(current=rng.random() < 0.7)
             elif r < 0.32:
-                h.sys.displays["agent"].clear()
-                h.log("display.clear")
+                h.clear()
             elif r < 0.40:
                 if h.train():
                     ctx.count("retrainings_accepted")
@@ -955,7 +1044,7 @@ def case_corner(ctx, item):
     h = E2E(ctx, ctx.rng("corner", repr(item)), desc, sizes=(mo, ws, mts))
     n = mo if nobs == "min" else ws
     for i in range(n):
-        h.sys.record_observation("agent", "status nominal", v if field == "rt" else 0.5, v if field == "conf" else 0.9)
+        h.record("status nominal", v if field == "rt" else 0.5, v if field == "conf" else 0.9)
     h.log("observe", "%s=%s" % (field, val), n)
     ctx.count("corner_windows")
     if h.train():
